@@ -43,8 +43,12 @@ Definition check_ci (c : Z * Z * list Z) : bool :=
   let '(s, e, expected) := c in list_eqb Z.eqb (contiguous_index s e) expected.
 
 (* ---- stream gi : _get_dst_indices *)
-Definition check_gi (c : list cday * res dst_indices) : bool :=
-  res_eqb idx_eqb (get_dst_indices (map expand (fst c))) (snd c).
+(* the behaviour the implementation shows on the probes of harness/c06.py (0 = as coded) *)
+Definition policy_of (count_rows loc_by_mask : bool) : policy :=
+  {| count_rows := count_rows; loc_by_mask := loc_by_mask |}.
+
+Definition check_gi (c : policy * list cday * res dst_indices) : bool :=
+  let '(pol, days, expected) := c in res_eqb idx_eqb (get_dst_indices pol (map expand days)) expected.
 
 (* ---- stream cd : the correct_dst closure + np.array (one feature) *)
 Definition check_cd (c : list (list Z) * dst_indices * res (list (list Z))) : bool :=
@@ -79,8 +83,8 @@ Definition exc_eqb (a b : exc_class) : bool :=
 Inductive outcome := Rows (n : N) (index_kept : bool) | Raised (c : exc_class).
 
 Definition zero_regress (agg : list (list Z)) : list Z := repeat 0%Z (24 * length agg).
-Definition hourly_outcome (days : list day) : outcome :=
-  match hourly_predict zmean (fun _ => 0%Z) zero_regress days with
+Definition hourly_outcome (pol : policy) (days : list day) : outcome :=
+  match hourly_predict zmean (fun _ => 0%Z) zero_regress pol days with
   | Ok rows => Rows (N.of_nat (length rows))
                     (list_eqb Z.eqb (map fst rows) (index_of days)
                      && forallb (fun r => match snd r with Some _ => true | None => false end) rows)
@@ -92,8 +96,8 @@ Definition outcome_eqb (a b : outcome) : bool :=
   | Raised c, Raised d => exc_eqb c d
   | _, _ => false
   end.
-Definition check_hp (c : list cday * outcome) : bool :=
-  outcome_eqb (hourly_outcome (map expand (fst c))) (snd c).
+Definition check_hp (c : policy * list cday * outcome) : bool :=
+  let '(pol, days, expected) := c in outcome_eqb (hourly_outcome pol (map expand days)) expected.
 
 (* ---- stream dp : DailyModel._predict / BillingModel.predict row accounting *)
 (* cell: None = NaN, Some false = +-inf, Some true = finite *)
